@@ -39,9 +39,20 @@ impl Cfg {
 
 /// Are findings made while *constructing and validating roots* violations of the property being
 /// checked? Only for C03 (hidden state after any history, constructors included); every other
-/// property drops a root that does not validate (counted as `roots_rejected_by_validation`), because
-/// the root is not a result of the operations that property speaks about.
+/// property only requires a root to show the requested bits (else it is dropped and counted as
+/// `roots_rejected_by_validation`); it does not run the battery on roots, because the root is not
+/// a result of the operations that property speaks about.
 pub static ROOT_FINDINGS_COUNT: std::sync::atomic::AtomicBool = std::sync::atomic::AtomicBool::new(false);
+
+/// When is a returned vector put through the differential battery?
+/// * strict (C03, C18 - the properties that speak about spare capacity / storage mode not being
+///   observable): whenever its representation differs from the freshly constructed one;
+/// * otherwise: only when some storage bit at a position >= len is set ("dirty padding"). A vector
+///   with clean padding and spare capacity / heap mode is bit-identical to what `zeros`+`set`+
+///   `reserve` builds; whether such vectors behave like fresh ones is C03's and C18's question, and
+///   asking it in every other check would make e.g. C08 fail for a defect of `trailing_zeros`.
+/// The raw representation only decides whether the battery runs; the verdict is the battery's.
+pub static STRICT_BATTERY: std::sync::atomic::AtomicBool = std::sync::atomic::AtomicBool::new(false);
 
 /// Run-wide set of representations that already went through the battery.
 pub struct Seen {
@@ -187,7 +198,10 @@ pub fn check_vector(
     }
     if r != Raw::predict(y.kind(), &yb) {
         part.count("results_not_fresh_repr", 1);
-        if seen.insert(&r) {
+        let strict = STRICT_BATTERY.load(std::sync::atomic::Ordering::Relaxed);
+        if !strict && r.padding_clean() {
+            part.count("results_clean_padding_spare_or_heap", 1);
+        } else if seen.insert(&r) {
             part.count("battery_runs", 1);
             let fs = battery(y, &yb, level);
             if let Some(f) = fs.first() {
